@@ -352,6 +352,27 @@ def check(ctx):
                     for n in ast.walk(s):
                         if isinstance(n, ast.Raise) and n.exc is not None and canon(n.exc).startswith("ValueError"):
                             pair_ok = True
+                        # the malformed branch only sets a boolean flag; the raise sits under a later test of that flag
+                        if isinstance(n, ast.Assign) and len(n.targets) == 1 and isinstance(n.targets[0], ast.Name) and isinstance(n.value, ast.Constant) and isinstance(n.value.value, bool):
+                            flag, val = n.targets[0].id, n.value.value
+                            others = [v_ for t_, v_, s_, k_ in iter_stores(lc.node) if isinstance(t_, ast.Name) and t_.id == flag and s_ is not n]
+                            if not all(isinstance(v_, ast.Constant) and v_.value is (not val) for v_ in others):
+                                continue
+                            cfg_l = cfg_of(lc)
+                            an = cfg_l.node_of(n)
+                            for t2 in ast.walk(lc.node):
+                                if not isinstance(t2, ast.If):
+                                    continue
+                                tt, pol = t2.test, True
+                                while isinstance(tt, ast.UnaryOp) and isinstance(tt.op, ast.Not):
+                                    tt, pol = tt.operand, not pol
+                                if not (isinstance(tt, ast.Name) and tt.id == flag):
+                                    continue
+                                taken = t2.body if pol == val else t2.orelse
+                                hn = cfg_l.head_of(t2)
+                                if an is not None and hn is not None and hn.id in cfg_l.reachable(an.id, skip_exc=True) and any(
+                                        isinstance(r_, ast.Raise) and r_.exc is not None and canon(r_.exc).startswith("ValueError") for b_ in taken for r_ in ast.walk(b_)):
+                                    pair_ok = True
     ctx.check(pair_ok, lc, lc.node, "with specified noise, a result that is not a 2-tuple raises ValueError", "with specified noise a target result that is not a (value, SD) pair is no longer rejected with ValueError", construct="pair-format check")
 
     # ------------------------------------------------------------------ R2
